@@ -29,7 +29,10 @@ BASES = [
 
 
 # long / malformed inputs that are only listed (no corruption): over-long elements far beyond every limit
-LISTED = [b"A #%d%s%s" % (w, (b"%d" % 5).rjust(w, b"0"), b"he;,o") for w in range(1, 10)] + [b"A #%d%s%s,2" % (w, (b"%d" % 12).rjust(w, b"0"), b"0123456789\n'") for w in range(2, 10)] + [
+LISTED = [b"A " + b"0" * 255 + b"1 KV", b"A " + b"0" * 256 + b"7,." + b"0" * 256 + b"1", b"A 1E" + b"0" * 256, b"A 1E000003 V", b"A 25E-000003 KOHM", b"A 1." + b"0" * 512 + b"E+01",
+          b"A #565536" + b"x" * 65536, b"A #6100000" + b"y" * 100000 + b",#H10;B", b"A #565535" + b"z" * 65535 + b";B",
+          b"A " + b",".join(b"%d" % i for i in range(1, 301)), b"A 'p\x7fq',\"\x01\x7f\"", b"A (@1,'dev\x7fA',2!3)", b"A?;\tB", b"A;\r:B", b"A low_noise,a_b,norm_",
+          ] + [b"A #%d%s%s" % (w, (b"%d" % 5).rjust(w, b"0"), b"he;,o") for w in range(1, 10)] + [b"A #%d%s%s,2" % (w, (b"%d" % 12).rjust(w, b"0"), b"0123456789\n'") for w in range(2, 10)] + [
           b"A #HFFFFFFFFFFFFFFF" + bytes([c]) for c in b"0123456789ABCDEFabcdef"] + [b"A #Q177777777777777777777" + bytes([c]) for c in b"01234567"] + [
           b"A #B" + b"1" * 63 + b"0", b"A #b" + b"0" * 30 + b"1" * 64, b"A #H0000000000000000000FFFFFFFFFFFFFFFF", b"A #H10000000000000000", b"A #Q2000000000000000000000", b"A #B1" + b"0" * 64] + [b"A '" + b"s" * 300 + b"'", b"A #3300" + b"b" * 300, b"A #3301" + b"b" * 300, b"A '" + b"s" * 300, b"A " + b"X" * 256, b"A " + b"X" * 270, b"A 1 " + b"S" * 256, b"Y" * 260 + b" 1", b"A " + b"9" * 300, b"A 1e" + b"9" * 300,
           b"A #H" + b"F" * 300, b"A (" + b"1," * 200 + b"1)", b"A (@" + b"1!" * 200 + b"1)", b"A " + b"1," * 300 + b"1", b":" * 300, b";" * 300,
